@@ -37,6 +37,7 @@ type scenario struct {
 	HostIPs []string   `json:"hostIPs"`
 	Workers [][]bindOp `json:"workers"`
 	Sweep   bool       `json:"sweep"` // exhaust the ephemeral range first
+	SweepIP int        `json:"sweepIP,omitempty"` // 0: on the wildcard address; k>0: on the host's k-th address (mod), then other addresses must still have free ports
 	NearFull int       `json:"nearFull"` // leave only this many ephemeral ports free before the workers start (0 = off)
 }
 
@@ -85,6 +86,7 @@ func gen(r *harn.Rng, tier string) interface{} {
 	nw := r.Pick(1, 1, 2, 3)
 	if r.Bool(0.03) {
 		sc.Sweep = true
+		sc.SweepIP = r.Pick(0, 0, 1, 2)
 		nw = 1
 	}
 	if !sc.Sweep && r.Bool(0.03) {
@@ -337,10 +339,15 @@ func runBind(env *simrt.Env, sc *scenario) {
 	concurrent := len(sc.Workers) > 1
 
 	if sc.Sweep {
-		// occupy the whole ephemeral range on the wildcard address
+		// occupy the whole ephemeral range on the wildcard address (or on one specific address)
 		n := 0
+		sweepIP, sweepName := net.IPv4zero, "*"
+		if sc.SweepIP > 0 {
+			sweepName = sc.HostIPs[(sc.SweepIP-1)%len(sc.HostIPs)]
+			sweepIP = net.ParseIP(sweepName)
+		}
 		for i := 0; i < 1001; i++ {
-			c, err := host.ListenUDP("udp", &net.UDPAddr{IP: net.IPv4zero, Port: 0})
+			c, err := host.ListenUDP("udp", &net.UDPAddr{IP: sweepIP, Port: 0})
 			if err != nil {
 				if i < 1000 {
 					env.Fail("C13/ephemeral-exhausted-early", "port 0 bind #%d failed (%v) although only %d of the 1000 ports 5000-5999 are in use", i+1, err, i)
@@ -355,16 +362,39 @@ func runBind(env *simrt.Env, sc *scenario) {
 				return
 			}
 			if i == 1000 {
-				env.Fail("C13/ephemeral-reused", "the 1001st port 0 bind on the wildcard address succeeded (port %d) although all 1000 ports 5000-5999 are in use", la.Port)
+				env.Fail("C13/ephemeral-reused", "the 1001st port 0 bind on %s succeeded (port %d) although all 1000 ports 5000-5999 are in use there", sweepName, la.Port)
 				return
 			}
-			allSocks = append(allSocks, &sock{ip: "*", port: la.Port, conn: c})
+			allSocks = append(allSocks, &sock{ip: sweepName, port: la.Port, conn: c})
 			n++
+		}
+		if sc.SweepIP > 0 {
+			// every port is taken on one address only: the host's other addresses still have all of theirs
+			others := []string{"127.0.0.1"}
+			for _, ip := range sc.HostIPs {
+				if ip != sweepName {
+					others = append(others, ip)
+				}
+			}
+			for _, ip := range others {
+				c, err := host.ListenUDP("udp", &net.UDPAddr{IP: net.ParseIP(ip), Port: 0})
+				if err != nil {
+					env.Fail("C13/bind-refused", "port 0 bind on %s failed (%v) although the ports 5000-5999 are in use on %s only", ip, err, sweepName)
+					return
+				}
+				la := c.LocalAddr().(*net.UDPAddr)
+				if la.Port < 5000 || la.Port > 5999 || !la.IP.Equal(net.ParseIP(ip)) {
+					env.Fail("C13/wrong-local-address", "port 0 bind on %s returned %v", ip, la)
+					return
+				}
+				_ = c.Close()
+			}
+			env.Probe("ephemeral-exhausted-on-one-address")
 		}
 		ports := map[int]bool{}
 		for _, s := range allSocks {
 			if ports[s.port] {
-				env.Fail("C13/ephemeral-reused", "two open wildcard sockets share port %d", s.port)
+				env.Fail("C13/ephemeral-reused", "two open sockets on %s share port %d", sweepName, s.port)
 				return
 			}
 			ports[s.port] = true
